@@ -16,14 +16,23 @@
 (***************************************************************************)
 EXTENDS Naturals, Sequences, FiniteSets
 
-CONSTANT Keys          \* slab keys (the trace validator passes Nat)
+CONSTANT
+  \* @type: Set(Int);
+  Keys          \* slab keys (the trace validators never enumerate them)
 
-VARIABLES pending,     \* futures in the spawn queue
-          slab,        \* occupied keys
-          rq,          \* ready queue (keys; stale and duplicate keys allowed)
-          pc,          \* "idle" | "spawn" | "ready": where run_all is
-          work,        \* did_some_work of the round under way
-          cur          \* the key being polled, or NOKEY
+VARIABLES
+  \* @type: Int;
+  pending,     \* futures in the spawn queue
+  \* @type: Set(Int);
+  slab,        \* occupied keys
+  \* @type: Seq(Int);
+  rq,          \* ready queue (keys; stale and duplicate keys allowed)
+  \* @type: Str;
+  pc,          \* "idle" | "spawn" | "ready": where run_all is
+  \* @type: Bool;
+  work,        \* did_some_work of the round under way
+  \* @type: Int;
+  cur          \* the key being polled, or NOKEY
 lvars == <<pending, slab, rq, pc, work, cur>>
 
 NOKEY == 0 - 1
@@ -44,9 +53,11 @@ Take(k) ==
   /\ UNCHANGED <<rq, pc>>
 ToReady == pc = "spawn" /\ cur = NOKEY /\ pending = 0 /\ pc' = "ready" /\ UNCHANGED <<pending, slab, rq, work, cur>>
 
+\* @type: (Seq(Int), Int) => Seq(Int);
 RemoveFirst(s, k) ==
-  LET i == CHOOSE j \in DOMAIN s : s[j] = k /\ \A m \in 1..(j - 1) : s[m] # k IN
-  [m \in 1..(Len(s) - 1) |-> IF m < i THEN s[m] ELSE s[m + 1]]
+  LET \* @type: Int;
+      i == CHOOSE j \in DOMAIN s : s[j] = k /\ \A m \in DOMAIN s : m < j => s[m] # k IN
+  SubSeq(s, 1, i - 1) \o SubSeq(s, i + 1, Len(s))
 
 \* ready pass: a queued key is taken (the code takes the oldest; which one is not what matters)
 Pop(k) ==
@@ -75,6 +86,4 @@ LNext ==
 
 \* C01: when run_all returns nothing runnable is left behind
 QuiescentAtDone == [][Done => Quiet]_lvars
-\* a task is polled only while it is in the slab, and never two at once (single caller)
-PollsLive == cur # NOKEY => TRUE
 =============================================================================
